@@ -11,6 +11,7 @@
 */
 
 #include "EbDecParseInterBlock.h"
+#include "EbVerifHooks.h"
 #include "EbCommonUtils.h"
 #include "EbWarpedMotion.h"
 
@@ -1586,6 +1587,9 @@ void read_interintra_mode(ParseCtxt *parse_ctxt, BlockModeInfo *mbmi) {
             r, frm_ctx->interintra_cdf[bsize_group], 2, ACCT_STR);
         assert(mbmi->ref_frame[1] == NONE_FRAME);
         if (mbmi->is_inter_intra) {
+#ifdef SVT_AV1_VERIF
+            SVT_VERIF_EVENT(SVT_VERIF_EV_DEC_TOOL, 16, 0, 0, 0);
+#endif
             mbmi->interintra_mode_params.interintra_mode = (InterIntraMode)svt_read_symbol(
                 r, frm_ctx->interintra_mode_cdf[bsize_group], INTERINTRA_MODES, ACCT_STR);
             mbmi->ref_frame[1]                            = INTRA_FRAME;
@@ -1833,10 +1837,20 @@ MotionMode read_motion_mode(EbDecHandle *dec_handle, ParseCtxt *parse_ctxt, Part
 
     if (last_motion_mode_allowed == OBMC_CAUSAL) {
         motion_mode = svt_read_symbol(r, frm_ctx->obmc_cdf[mbmi->sb_type], 2, ACCT_STR);
+#ifdef SVT_AV1_VERIF
+        if (motion_mode == OBMC_CAUSAL)
+            SVT_VERIF_EVENT(SVT_VERIF_EV_DEC_TOOL, 32, 0, 0, 0);
+#endif
         return (MotionMode)(motion_mode);
     } else {
         motion_mode = svt_read_symbol(
             r, frm_ctx->motion_mode_cdf[mbmi->sb_type], MOTION_MODES, ACCT_STR);
+#ifdef SVT_AV1_VERIF
+        if (motion_mode == OBMC_CAUSAL)
+            SVT_VERIF_EVENT(SVT_VERIF_EV_DEC_TOOL, 32, 0, 0, 0);
+        if (motion_mode == WARPED_CAUSAL)
+            SVT_VERIF_EVENT(SVT_VERIF_EV_DEC_TOOL, 64, 0, 0, 0);
+#endif
         return (MotionMode)(motion_mode);
     }
 }
